@@ -10,6 +10,10 @@ CLAIMED = {
              note="Correspondence is exhaustive in instruction words, sampled in states. RTI is outside the claim."),
  "C03": dict(ref="6/C03", text="Theorems C03_load/_load_shape/_load_accepts (loader = SPEC loader, initial machine as the property describes, accept iff words+HALT fit), C03_run (run loop = reference run for every fuel: same fetch trace, final state, output, stop reason), C03_fetch_bounds (no fetch outside [origin,xFE00), invariant over the trace), C03_finished_pc. Tie: from_raw+run under a fetch budget vs the extracted model on structured and random images, comparing stop kind, exit code, full state, output, input consumption and fetch-trace hash.",
              note="Partial: real stdin/stdout/TTY behaviour (is_terminal, flushing, raw mode) is outside the model and observed only through the hook buffers."),
+ "C01": dict(ref="6/C01", text="Theorems C01_emit_decode (every word emitted for a statement decodes, by the ISA decoder of Isa.v, to exactly the written instruction: opcode, register fields, sign-truncated immediates, trap vector; proved by exhaustive sweeps over every operand combination of every form), C01_pcrel_target (PC after fetch + SEXT(field) = address of the referenced statement, for every origin/line/label line), C01_field (field = distance mod 2^n, produced iff it fits). Layout independence (C01_layout) is NOT yet a theorem: it is carried by the correspondence, which assembles every generated program in many layouts/spellings through lace's public API and the extracted char-level model (lexer, preprocessor, parser, symbol table, backpatch, emit) and compares origin, every word, breakpoints and statement spans.",
+             note="Partial: the lexer-level layout theorem is missing (stated in DESIGN.md); whole-program induction (image = map encode) is covered only through per-statement theorems plus correspondence."),
+ "C04": dict(ref="6/C04", text="Theorems C04_signed_iff / C04_unsigned_iff (a literal is accepted iff its value lies in the field's range), C04_expect_lit (accepted values are handed on unchanged), C04_offset_iff (a label reference is accepted iff its distance fits the 9/10/11-bit field), C04_no_spill (accepted operands never spill into a neighbouring field), C04_dup_label, C04_undefined_label. Tie: exhaustive boundary grid (every literal-taking form x boundary values x spellings, all trap vectors, label distances at/inside/beyond the range via .blkw, label/orig errors) through the public API vs the extracted model.",
+             note="The whole-program 'iff' is assembled from operand-level theorems; the induction over the statement list is not mechanised yet."),
 }
 PENDING_REASON = "not claimed yet: its model/theorem/correspondence check is not built at this commit (work in progress, see DESIGN.md section 11)"
 NOT_APPLICABLE = {}
